@@ -123,6 +123,11 @@ def cases(ctx):
         if ctx.mine(i):
             yield {'kind': 'two_blockers', 'a': wa, 'b': wb, 'abandon_first': bool(j % 2)}
         i += 1
+    # a sink that cannot seek (a pipe): the writers finalise through seek(0); the fill must be out before that fails
+    for recs in ([100], [1004], [2000, 5], [1012] * 3):
+        if ctx.mine(i):
+            yield {'kind': 'nonseekable_sink', 'recs': recs}
+        i += 1
     # seeded long histories
     n_hist = 400 if ctx.tier == 'quick' else 200000
     rng = ctx.rng('hist')
@@ -271,7 +276,55 @@ def judge_two_blockers(ctx, case):
             return
 
 
+class PipeSink:
+    """Collects what is written; cannot seek or tell (what a pipe or socket gives)."""
+    def __init__(self):
+        self.parts = []
+
+    def write(self, b):
+        self.parts.append(bytes(b))
+        return len(b)
+
+    def seekable(self):
+        return False
+
+    def seek(self, *a):
+        raise io.UnsupportedOperation('seek')
+
+    def tell(self):
+        raise io.UnsupportedOperation('tell')
+
+    def flush(self):
+        pass
+
+
+def judge_nonseekable(ctx, case):
+    m = ctx.mciipm
+    recs = [_CODED[100 * i:100 * i + n] for i, n in enumerate(case['recs'])]
+    sink = PipeSink()
+
+    def body():
+        w = m.VbsWriter(sink, blocked=True)
+        for r in recs:
+            w.write(r)
+        try:
+            w.close()
+        except (io.UnsupportedOperation, OSError):
+            pass                    # the rewind cannot work on a pipe; what matters is what was written before it failed
+    kind, val = ctx.call(body, budget=sentinel.budget_bulk(sum(case['recs']) + 8000))
+    ctx.count('blocked files written to a sink that cannot seek')
+    ctx.case_done(['pipe', case['recs']])
+    if kind != 'ok':
+        report(ctx, case, 'nonseekable_sink:%s' % ('step_budget' if kind == 'steps' else 'exception:' + type(val).__name__), {'detail': repr(val)})
+        return
+    why = ref.classify_blocked(b''.join(sink.parts), ref.vbs(recs))
+    if why:
+        report(ctx, case, 'nonseekable_sink:' + why, {'file_len': sum(len(x) for x in sink.parts)})
+
+
 def judge(ctx, case):
+    if case['kind'] == 'nonseekable_sink':
+        return judge_nonseekable(ctx, case)
     if case['kind'] == 'two_blockers':
         return judge_two_blockers(ctx, case)
     if case['kind'] == 'history':
